@@ -763,6 +763,7 @@ func (p *Parser) parseMapExpression() (Node, error) {
 
 	// Parse the map key-value pairs
 	items := make(map[Node]Node)
+	var keys []Node // key expressions in source order
 
 	// Check if there are any items
 	if p.tokenIndex < len(p.tokens) &&
@@ -792,6 +793,7 @@ func (p *Parser) parseMapExpression() (Node, error) {
 
 			// Add key-value pair to map
 			items[keyExpr] = valueExpr
+			keys = append(keys, keyExpr)
 
 			// Check for comma separator between items
 			if p.tokenIndex < len(p.tokens) &&
@@ -821,6 +823,7 @@ func (p *Parser) parseMapExpression() (Node, error) {
 			line:     line,
 		},
 		items: items,
+		keys:  keys,
 	}, nil
 }
 
